@@ -188,6 +188,23 @@ CLAIMED['C11'] = dict(
     technique='contract-based deductive verification: data-structure invariant of the context table, pointwise map '
               'instances, loop invariants, z3/cvc5')
 
+CLAIMED['C08'] = dict(
+    text='Deductive proof over the finite index of 23 message classes x 4 kinds of data set, field values symbolic: the '
+         'real constructor, every tag-bound property setter, the data_set setter and set_length() are executed '
+         'symbolically from an ARBITRARY earlier state of the data-set-type element (covers re-sending one object with '
+         'changing fields): fresh message says no data set and carries the PS3.7 command field of its type; after the '
+         'setter the flag is 0101H iff bool(value) is false (what encode() tests before fragmenting a data set); '
+         'set_length stores the sum of |encode_element(e)| over all elements other than (0000,0000) and changes nothing '
+         'else. Association.send calls set_length before queueing the encoder. The byte-level reading (bytes that '
+         'follow; ascending tag order) rests on the pydicom writer model, which is audited natively on every run and '
+         'reported as assumed, not proved.',
+    ref='4/C08',
+    note=TRUST + 'pydicom Dataset on command sets = insertion-ordered tag map, BaseTag compares equal to ints and '
+         '(group, element) pairs (pyvc/dsmodel.py); encode_element a function of tag and value; audit: 23 classes x UID '
+         'lengths 1..64 (replay/c08.py); empty file data sets outside the domain',
+    technique='contract-based deductive verification: class invariant (data-set flag) preserved by every mutator, '
+              'postcondition of set_length, symbolic execution of the real methods, z3/cvc5; writer model audited')
+
 NOT_YET = {
 }
 
